@@ -20,10 +20,10 @@ from vf.seq import outcome
 PROP = "C20"
 LEVEL = "fault_enumeration"
 RULE = ("seeded histories of 1-14 steps over create / remove / flush / remove-of-an-externally-deleted-file / len+index "
-        "reads on a TmpPool bound to a private directory; each history is executed len+3 times: normal exit, "
+        "reads / remove() whose os.remove fails once with PermissionError on a TmpPool bound to a private directory (after a normal exit the same pool object is entered a second time); each history is executed len+3 times: normal exit, "
         "exception raised after step j for EVERY j in 0..len, return and break out of the body (fault enumeration "
         "over all body positions). Multi-process pools: 1-3 forked children creating files before and after the "
-        "parent's flush(), exiting normally or by exception, parent leaving normally or by exception; race cases: children create files continuously WHILE the parent flushes repeatedly with every statement of flush() stretched by an injected delay. FilePool: 0-6 "
+        "parent's flush(), exiting normally or by exception, parent leaving normally or by exception, half of the cases with a second round on the same pool object; race cases: children create files continuously WHILE the parent flushes repeatedly with every statement of flush() stretched by an injected delay. FilePool: 0-6 "
         "existing files (with duplicates, sometimes /dev/null among them) in modes r, rb, w, a, r+, ab, wb, bodies that also close a handle themselves, body exits enumerated the same way. "
         "distinct_nontrivial = distinct (kind, history, exit route) executions with >=2 steps.")
 ASSUMPTIONS = [
@@ -56,7 +56,7 @@ def gen_case(rng, tier, index):
         steps = []
         for _ in range(rng.randint(1, 14)):
             steps.append([rng.choice(["create", "create", "create", "remove", "flush", "remove_deleted", "ext_delete",
-                                      "read"]), rng.randrange(1 << 16)])
+                                      "read", "remove_fails"]), rng.randrange(1 << 16)])
         return {"kind": "tmp-single", "ops": steps}
     if k < 7:
         children = []
@@ -65,7 +65,7 @@ def gen_case(rng, tier, index):
                              "removes_own": rng.random() < 0.3})
         return {"kind": "tmp-multi", "ops": children, "parent_before": rng.randint(0, 2), "parent_after": rng.randint(0, 2),
                 "flush_mid": rng.random() < 0.8, "parent_raises": rng.random() < 0.4,
-                "fork_after_flush": rng.random() < 0.3}
+                "fork_after_flush": rng.random() < 0.3, "two_rounds": rng.random() < 0.5}
     if k == 7:
         return {"kind": "tmp-race", "ops": [{"creates": rng.randint(20, 60), "pace": rng.choice([0, 0.0005, 0.002])}
                                             for _ in range(rng.randint(1, 3))],
@@ -167,6 +167,37 @@ def _tmp_single_once(steps, route, res):
                     fail("create", f"create() returned {p!r}: not a distinct existing file of the pool directory")
                 ever.append(p)
                 listed.append(p)
+            elif op == "remove_fails":
+                # the operating system refuses the deletion once (EPERM / EBUSY): remove() raises, the file is still
+                # there and must still be the pool's business (listed, removed at the latest when the context is left)
+                if not listed:
+                    continue
+                p = listed[a % len(listed)]
+                if not os.path.exists(p):
+                    continue            # deleted behind the pool's back earlier in this history: nothing to refuse
+                real_remove = os.remove
+                hit = []
+
+                def failing(path, *aa, **kk):
+                    if not hit and os.path.realpath(path) == os.path.realpath(p):
+                        hit.append(1)
+                        raise PermissionError(13, "injected: operation not permitted", path)
+                    return real_remove(path, *aa, **kk)
+                os.remove = failing
+                try:
+                    try:
+                        pool.remove(p)
+                        if hit:
+                            fail("remove", "remove() swallowed the PermissionError of os.remove")
+                    except PermissionError:
+                        pass
+                finally:
+                    os.remove = real_remove
+                if hit and not os.path.exists(p):
+                    fail("remove", "file vanished although its deletion failed")
+                if not hit:
+                    listed.remove(p)
+                res.count("removes_with_injected_os_error")
             elif op in ("remove", "remove_deleted"):
                 if not listed:
                     continue
@@ -201,7 +232,8 @@ def _tmp_single_once(steps, route, res):
             return "returned"
 
     def run():
-        with TmpPool(d) as pool:
+        pool_obj = TmpPool(d)
+        with pool_obj as pool:
             observe(pool, "enter")
             if route == "break":
                 for _ in (0,):
@@ -209,6 +241,17 @@ def _tmp_single_once(steps, route, res):
                     break
             else:
                 body(pool)
+        if route == "normal":
+            # the same pool object is entered a second time: it starts empty and cleans up again
+            if os.listdir(d):
+                fail("exit-leaves-files", f"after leaving the context the directory holds {os.listdir(d)[:3]}")
+            state["listed"] = []
+            with pool_obj as pool:
+                observe(pool, "second enter")
+                p2 = pool.create()
+                ever.append(p2)
+                state["listed"].append(p2)
+                observe(pool, "create in the second session")
 
     try:
         run()
@@ -251,6 +294,13 @@ def _child(pool, spec, conn, go):
 def run_tmp_multi(case, res):
     from windpyutils.files import TmpPool
     d = fresh_dir("tmpmp")
+    pool_obj = TmpPool(d, multi_proc=True)
+    for rnd in range(2 if case.get("two_rounds") else 1):
+        _tmp_multi_round(case, res, d, pool_obj, rnd)
+    del pool_obj
+
+
+def _tmp_multi_round(case, res, d, pool_obj, rnd):
     ctx = multiprocessing.get_context("fork")
     ever = []
     children = case["ops"]
@@ -259,7 +309,6 @@ def run_tmp_multi(case, res):
         raise Violation(mech, f"multi_proc TmpPool ({len(children)} children, flush_mid={case['flush_mid']}, "
                         f"fork_after_flush={case['fork_after_flush']}): {msg}", {"dir": sorted(os.listdir(d))[:8]})
 
-    pool_obj = TmpPool(d, multi_proc=True)
     try:
         with pool_obj as pool:
             for _ in range(case["parent_before"]):
@@ -321,10 +370,10 @@ def run_tmp_multi(case, res):
     left = [p for p in ever if os.path.exists(p)]
     if left or os.listdir(d):
         late = case["flush_mid"] and any(c["after"] for c in children)
-        fail("child-files-after-flush-lost" if late else "exit-leaves-files", f"after leaving the context {len(left)} file(s) remain "
+        fail("child-files-after-flush-lost" if late and rnd == 0 else "exit-leaves-files",
+             f"{'second use of the same pool object: ' if rnd else ''}after leaving the context {len(left)} file(s) remain "
              f"(created by {'children after the parent flush' if case['flush_mid'] else 'the pool'}): {os.listdir(d)[:4]}")
-    res.seen(("tmpmp", repr(case)))
-    del pool_obj
+    res.seen(("tmpmp", repr(case), rnd))
 
 
 def _race_child(pool, spec, conn):
